@@ -331,13 +331,19 @@ def insertTrans (x : Trans) : List Trans → List Trans
 /-- `sort_by_key(|s| (s.from_state, s.term))` (stable). -/
 def sortTransList (l : List Trans) : List Trans := l.foldr insertTrans []
 
+/-- The transitions in the order `as_compiled_dfa` pushes them (before sorting). -/
+def Adj.rawTrans (a : Adj) : List (Nat × Nat × Nat) :=
+  a.list.flatMap (fun x => x.2.map (fun n => (x.1, n)))
+
 /-- `as_compiled_dfa`; `none` = an `unwrap` panics. -/
 def Adj.asCompiled (a : Adj) : Option LaDfa :=
-  match (a.list.flatMap (fun x => x.2.map (fun n => (x.1, n)))).mapM
-      (fun (y : Nat × Nat × Nat) => (bmGet a.prods y.2.1).map (fun p => (⟨y.1, y.2.2, y.2.1, p⟩ : Trans))),
-    bmGet a.prods 0 with
-  | some ts, some p0 => some ⟨p0, sortTransList ts, a.k⟩
-  | _, _ => none
+  if a.rawTrans.all (fun y => (bmGet a.prods y.2.1).isSome) then
+    match bmGet a.prods 0 with
+    | some p0 =>
+      some ⟨p0, sortTransList (a.rawTrans.filterMap
+        (fun y => (bmGet a.prods y.2.1).map (fun p => (⟨y.1, y.2.2, y.2.1, p⟩ : Trans)))), a.k⟩
+    | none => none
+  else none
 
 /-- `AdjacencyList::minimize` (with `ch` = the hash-map iteration orders). -/
 def Adj.minimize (a : Adj) (ch : List Nat) : Option Adj :=
